@@ -48,14 +48,44 @@ class Worklist:
         return self.g.node_of(self.pop_stmt)
 
     def pushes(self) -> List[Tuple[Node, ast.Call]]:
+        """(node, call) for `S.append(x)`; `S.extend(<elt> for … in …)` is presented as a
+        synthetic `S.append(<elt>)` call (its filter conditions are in `push_sources`)."""
         out = []
         for n in self.nodes():
             if n.kind != "stmt":
                 continue
             for c in walk_local(n.ast):
-                if isinstance(c, ast.Call) and isinstance(c.func, ast.Attribute) and c.func.attr in ("append", "appendleft") \
-                        and isinstance(c.func.value, ast.Name) and c.func.value.id == self.stack:
-                    out.append((n, c))
+                if isinstance(c, ast.Call) and isinstance(c.func, ast.Attribute) and isinstance(c.func.value, ast.Name) and c.func.value.id == self.stack:
+                    if c.func.attr in ("append", "appendleft"):
+                        out.append((n, c))
+                    elif c.func.attr == "extend" and len(c.args) == 1 and isinstance(c.args[0], (ast.GeneratorExp, ast.ListComp)):
+                        syn = ast.Call(func=ast.Attribute(value=c.func.value, attr="append", ctx=ast.Load()), args=[c.args[0].elt], keywords=[])
+                        ast.copy_location(syn, c)
+                        syn._extend_of = c  # type: ignore[attr-defined]
+                        out.append((n, syn))
+        return out
+
+    def push_sources(self) -> List[Tuple[str, str, List[str]]]:
+        """(pushed element text, iterable text, filter texts) for successor pushes: an append inside a
+        `for x in IT:` loop (filters = guards in the loop body) or an extend over a comprehension."""
+        out = []
+        for (n, c) in self.pushes():
+            ext = getattr(c, "_extend_of", None)
+            if ext is not None:
+                comp = ext.args[0]
+                gen = comp.generators[0]
+                out.append((norm(comp.elt), norm(gen.iter), [norm(i) for i in gen.ifs]))
+                continue
+            el = c.args[0] if c.args else None
+            names = {x.id for x in ast.walk(el) if isinstance(x, ast.Name)} if el is not None else set()
+            anc = getattr(n.ast, "_parent", None)
+            while anc is not None and anc is not self.loop:
+                if isinstance(anc, ast.For) and isinstance(anc.target, ast.Name) and anc.target.id in names:
+                    hdr = [h for h in self.g.nodes if h.kind == "for" and h.ast is anc]
+                    gs = self.A.path_guards(self.g, [x for (x, l) in hdr[0].succ if l == "T"][0], n, self.fi) if hdr else []
+                    out.append((norm(el), norm(anc.iter), sorted({("" if p else "not ") + a for cj in gs for a, p in cj})))
+                    break
+                anc = getattr(anc, "_parent", None)
         return out
 
     def mark_values(self, memo: str) -> List[Tuple[str, str]]:
